@@ -1214,3 +1214,26 @@ Proof.
         -- subst; auto.
       * apply Hsub; auto. intros ->; auto.
 Qed.
+
+(* the vertices counted by num_vertices are the vertices of the abstract complex, each once *)
+Lemma dedup_In : forall l x, In x (dedup l) <-> In x l.
+Proof.
+  induction l as [|y l IH]; intros x; cbn; [tauto|]. destruct (memv y l) eqn:E.
+  - rewrite IH. apply memv_In in E. split; auto. intros [<-|H]; auto.
+  - cbn. rewrite IH. tauto.
+Qed.
+
+Lemma dedup_NoDup : forall l, NoDup (dedup l).
+Proof.
+  induction l as [|y l IH]; cbn; [constructor|]. destruct (memv y l) eqn:E; auto.
+  constructor; auto. rewrite dedup_In. apply memv_false; auto.
+Qed.
+
+Theorem vertices_spec : forall h v,
+  NoDup (vertices (fst (run h))) /\ (In v (vertices (fst (run h))) <-> snd (run h) [v] = true).
+Proof.
+  intros h v. split; [apply dedup_NoDup|]. destruct (run_refines h) as [_ HK].
+  assert (Hv : [v] <> []) by congruence. rewrite (HK [v] Hv). unfold vertices. rewrite dedup_In, in_concat. split.
+  - intros [t [Ht Hi]]. exists t; split; auto. intros y [<-|[]]; auto.
+  - intros [t [Ht Hi]]. exists t; split; auto. apply Hi; left; auto.
+Qed.
